@@ -357,6 +357,17 @@ class SimBackend(object):
                 self.fired.get('tl-fault-not-applicable(no limit passed)',
                                0) + 1
             fault = None
+        ce = self.cfg.get('crash_epochs') or {}
+        k_crash = ce.get(str(self.solve_index))
+        if fault is None and k_crash is not None:
+            n_here = sum(1 for r_ in self.rounds
+                         if r_['solve_index'] == self.solve_index)
+            if n_here == k_crash:
+                # the solver process dies at the k-th underlying solve of
+                # this Solver.solve() call (C18 histories: the caller gets
+                # PuLP's exception and simply solves again)
+                fault = {'kind': 'crash'}
+                rec['crash_epoch'] = True
         if fault is None and self.cfg.get('coherent_tl') and \
                 tl is not None and float(tl) < 1e-3:
             # a back end that is given less time than any solve takes stops
